@@ -19,8 +19,9 @@
 EXTENDS ExtKeyText, Json, IOUtils, TLCExt
 
 Traces == JsonDeserialize(IOEnv.TRACE_FILE)
-VARIABLES tid, l, objs          \* objs: the concrete keys seen so far, by object number
-tvars == <<tid, l, objs>>
+VARIABLES tid, l, objs,         \* objs: the concrete keys seen so far, by object number
+          memo                  \* derivations already explained: [par, ix, want, child] (concrete keys)
+tvars == <<tid, l, objs, memo>>
 Ev == Traces[tid].ev
 
 ---------------------------------------------------------------------------
@@ -91,7 +92,18 @@ EIx(e) == [h |-> e.ix[1] = 1, v |-> e.ix[2]]
 Result(e, c) == IF e.res = Len(objs) + 1 THEN objs' = Append(objs, c)
                 ELSE e.res \in 1..Len(objs) /\ objs[e.res] = c /\ UNCHANGED objs
 
-TMaster(e) == /\ e.op = "master"
+(* A derivation is explained either afresh - the expected term evaluates, with   *)
+(* the HMAC call pycoin made just now, to the logged key - or as a repetition:  *)
+(* the same parent key, index and wanted form were explained before and gave    *)
+(* this very key (the node objects memoise their children; a repeated call      *)
+(* makes no HMAC call).  A memo keyed too coarsely returns a key that was       *)
+(* explained for ANOTHER index or form: neither case applies.                   *)
+Entry(c, ix, want, child) == [par |-> c, ix |-> ix, want |-> Want(ToTerm(c), want), child |-> child]
+Explained(c, ix, want, child, F) ==
+  \/ Entry(c, ix, want, child) \in memo
+  \/ WellFormed(child) /\ EvalNode(Derive(ToTerm(c), ix, want), F) = child
+
+TMaster(e) == /\ e.op = "master" /\ UNCHANGED memo
               /\ LET c == Node(e) IN
                  /\ WellFormed(c)
                  /\ EvalNode(Master(B(e.seed)), e.facts) = c
@@ -100,10 +112,13 @@ TDerive(e) == /\ e.op = "derive" /\ e.o \in 1..Len(objs)
               /\ LET x == ToTerm(objs[e.o])
                      r == Derive(x, EIx(e), e.want) IN
                  /\ Specified(x, EIx(e), e.want)
-                 /\ IF r = Refused THEN e.res = 0 /\ UNCHANGED objs
+                 /\ IF r = Refused THEN e.res = 0 /\ UNCHANGED <<objs, memo>>
                     ELSE /\ e.res # 0
-                         /\ LET c == Node(e) IN WellFormed(c) /\ EvalNode(r, e.facts) = c /\ Result(e, c)
-TCopy(e) == /\ e.op = "copy" /\ e.o \in 1..Len(objs)
+                         /\ LET c == Node(e) IN
+                            /\ Explained(objs[e.o], EIx(e), e.want, c, e.facts)
+                            /\ Result(e, c)
+                            /\ memo' = memo \cup {Entry(objs[e.o], EIx(e), e.want, c)}
+TCopy(e) == /\ e.op = "copy" /\ e.o \in 1..Len(objs) /\ UNCHANGED memo
             /\ LET c == Node(e) IN
                /\ EvalNode(Neuter(ToTerm(objs[e.o])), e.facts) = c
                /\ Result(e, c)
@@ -114,14 +129,15 @@ WalkOk(c, ixs, steps, i, F) ==        \* steps[i..] are the keys after each inde
   ELSE LET r == Derive(ToTerm(c), ixs[i], "dflt") IN
        IF r = Refused THEN Len(steps) = i - 1
        ELSE /\ Len(steps) >= i
-            /\ WellFormed(NodeOf(steps[i]))
-            /\ EvalNode(r, F) = NodeOf(steps[i])
+            /\ Explained(c, ixs[i], "dflt", NodeOf(steps[i]), F)
             /\ WalkOk(NodeOf(steps[i]), ixs, steps, i + 1, F)
 TPath(e) == /\ e.op = "path" /\ e.o \in 1..Len(objs)
             /\ IsPathString(e.s)
             /\ LET ixs == PathIndices(e.s)
                    start == objs[e.o] IN
                /\ WalkOk(start, ixs, e.steps, 1, e.facts)
+               /\ memo' = memo \cup {Entry(IF i = 1 THEN start ELSE NodeOf(e.steps[i - 1]), ixs[i], "dflt", NodeOf(e.steps[i])) :
+                                        i \in 1..Len(e.steps)}
                /\ IF Len(e.steps) < Len(ixs) THEN e.res = 0 /\ UNCHANGED objs
                   ELSE LET last == IF ixs = <<>> THEN start ELSE NodeOf(e.steps[Len(ixs)])
                            want == IF HasDotPub(e.s) THEN EvalNode(Neuter(ToTerm(last)), e.facts) ELSE last
@@ -133,19 +149,19 @@ TText(e) == /\ e.op = "text" /\ e.o \in 1..Len(objs)
                /\ CanSerialise(x, e.prv)
                /\ EvalB(Ser78(x, e.prv, Version(e.net, e.fam, e.prv)), e.facts) = e.blob
                /\ Len(e.blob) = 78
-            /\ UNCHANGED objs
+            /\ UNCHANGED <<objs, memo>>
 \* parsing a text: accepted exactly by the readers of its version; the key is what the layout says
 FromBlob(b, F) == LET private == b[46] = 0 IN
   [depth |-> b[5], pfp |-> SubSeq(b, 6, 9), cn |-> UnSer32(SubSeq(b, 10, 13)), chain |-> SubSeq(b, 14, 45),
    k |-> IF private THEN SubSeq(b, 47, 78) ELSE <<>>,
    K |-> IF private THEN Look1(F.pub, SubSeq(b, 47, 78)) ELSE SubSeq(b, 46, 78)]
-TParse(e) == /\ e.op = "parse"
+TParse(e) == /\ e.op = "parse" /\ UNCHANGED memo
              /\ e.net \in Nets /\ e.fam \in Families
              /\ LET accepted == Defines(e.net, e.fam) /\ SubSeq(e.blob, 1, 4) \in {Versions[e.net][e.fam].prv, Versions[e.net][e.fam].pub} IN
                 IF ~accepted THEN e.res = 0 /\ UNCHANGED objs
                 ELSE e.res # 0 /\ Node(e) = FromBlob(e.blob, e.facts) /\ Result(e, Node(e))
 
-TInit == TLCSet(1, {}) /\ tid \in 1..Len(Traces) /\ l = 1 /\ objs = <<>>
+TInit == TLCSet(1, {}) /\ tid \in 1..Len(Traces) /\ l = 1 /\ objs = <<>> /\ memo = {}
 TNext == /\ l <= Len(Ev)
          /\ LET e == Ev[l] IN TMaster(e) \/ TDerive(e) \/ TCopy(e) \/ TPath(e) \/ TText(e) \/ TParse(e)
          /\ l' = l + 1 /\ UNCHANGED tid
